@@ -353,6 +353,98 @@ def module_init_configures_properties_on_instance():
     return 'bool', cbool(want in txt)
 
 
+# ---- process wide state of the datatype classes / the configuration objects (fresh-interpreter families of the driver)
+def arrayof_getproperties_builds_new_dict():
+    """HasProperties.getProperties returns the LIVE class level dict (`return self.propertyDict`), so every override
+    must build its own dict: ArrayOf.getProperties starts from `res = {}` and only `update`s it, Parameter.getProperties
+    works on `.copy()`; no other class of datatypes.py / params.py overrides getProperties; nowhere in these two modules
+    is the result of a getProperties() call written to (update / setdefault / pop / item assignment) or bound to a name
+    without a copy"""
+    ok = _stmts(find_func(find_class(parse(PR), 'HasProperties'), 'getProperties')) == ['return self.propertyDict']
+    ok = ok and _stmts(find_func(find_class(parse(DT), 'ArrayOf'), 'getProperties')) == \
+        ['res = {}', 'res.update(super().getProperties())', 'res.update(self.members.getProperties())', 'return res']
+    ok = ok and _stmts(find_func(_param(), 'getProperties')) == \
+        ['super_prop = super().getProperties().copy()',
+         'if self.datatype: super_prop.update(self.datatype.getProperties())', 'return super_prop']
+    for path, allowed in ((DT, {'ArrayOf'}), (PA, {'Parameter'})):
+        t = parse(path)
+        for c in ast.walk(t):
+            if isinstance(c, ast.ClassDef):
+                for f in c.body:
+                    if isinstance(f, ast.FunctionDef) and f.name == 'getProperties' and c.name not in allowed:
+                        ok = False
+        for n in ast.walk(t):
+            # <name> = <...>.getProperties()   (the live dict under a local name)
+            if isinstance(n, ast.Assign) and isinstance(n.value, ast.Call) and isinstance(n.value.func, ast.Attribute) \
+                    and n.value.func.attr == 'getProperties':
+                ok = False
+            # <...>.getProperties().update(...) and friends / <...>.getProperties()[k] = v
+            if isinstance(n, ast.Call) and isinstance(n.func, ast.Attribute) and isinstance(n.func.value, ast.Call) \
+                    and isinstance(n.func.value.func, ast.Attribute) and n.func.value.func.attr == 'getProperties' \
+                    and n.func.attr in ('update', 'setdefault', 'pop', 'popitem', 'clear', '__setitem__', '__delitem__'):
+                ok = False
+            if isinstance(n, ast.Subscript) and isinstance(n.ctx, (ast.Store, ast.Del)) and isinstance(n.value, ast.Call) \
+                    and isinstance(n.value.func, ast.Attribute) and n.value.func.attr == 'getProperties':
+                ok = False
+            if isinstance(n, ast.Return) and isinstance(n.value, ast.Call) and isinstance(n.value.func, ast.Attribute) \
+                    and n.value.func.attr == 'getProperties':
+                ok = False
+    return 'bool', cbool(ok)
+
+
+_DICT_WRITERS = ('pop', 'popitem', 'clear', 'update', 'setdefault', '__setitem__', '__delitem__', '__ior__')
+
+
+def add_accessible_only_reads_cfg():
+    """Module._add_accessible only READS the per accessible configuration dict `cfg` (it is the very object held by
+    srv.module_cfg / the cfg file: SecNode.get_module_instance copies the top level only): `cfg` is used as
+    `cfg is not None`, `cfg.items()`, `x in cfg`, `cfg[x]` (load) and nothing else - no pop / del / clear / update /
+    item assignment, not handed to any other call, not aliased"""
+    f = find_func(find_class(parse(MB), 'Module'), '_add_accessible')
+    if 'cfg' not in [a.arg for a in f.args.args + f.args.kwonlyargs]:
+        raise Shape('_add_accessible has no argument cfg')
+    parent = {}
+    for n in ast.walk(f):
+        for ch in ast.iter_child_nodes(n):
+            parent[ch] = n
+    ok = True
+    uses = 0
+    for n in ast.walk(f):
+        if not (isinstance(n, ast.Name) and n.id == 'cfg'):
+            continue
+        uses += 1
+        if not isinstance(n.ctx, ast.Load):
+            ok = False          # rebinding / del of the name
+            continue
+        p = parent.get(n)
+        if isinstance(p, ast.Compare):
+            # `cfg is not None` / `x in cfg`
+            good = all(isinstance(o, (ast.Is, ast.IsNot, ast.In, ast.NotIn, ast.Eq, ast.NotEq)) for o in p.ops)
+        elif isinstance(p, ast.Attribute) and p.value is n:
+            call = parent.get(p)
+            good = p.attr in ('items', 'keys', 'values', 'get') and isinstance(call, ast.Call) and call.func is p
+        elif isinstance(p, ast.Subscript) and p.value is n:
+            good = isinstance(p.ctx, ast.Load)
+        else:
+            good = False        # argument of a call, alias, iteration target, ...
+        ok = ok and good
+    return 'bool', cbool(ok and uses >= 3)
+
+
+def get_module_instance_copies_options():
+    """SecNode.get_module_instance: the options of a module are copied (`opts = dict(opts)`) before `cls` is popped and
+    before Module.__init__ pops the entries it consumes: srv.module_cfg keeps every module's entries"""
+    f = find_func(find_class(parse('frappy/secnode.py'), 'SecNode'), 'get_module_instance')
+    st = _stmts(f)
+    if 'opts = self.srv.module_cfg.get(modulename, None)' not in st or 'opts = dict(opts)' not in st:
+        return 'bool', cbool(False)
+    i, j = st.index('opts = self.srv.module_cfg.get(modulename, None)'), st.index('opts = dict(opts)')
+    later = ' '.join(st[j + 1:])
+    before = ' '.join(st[i + 1:j])
+    return 'bool', cbool(i < j and "opts.pop('cls')" in later and 'opts.pop' not in before
+                         and 'cls(modulename, self.log.parent.getChild(modulename), opts, self.srv)' in later)
+
+
 FACTS = [walk_is_reversed_mro, second_loop_merges_in_place, wrapped_classes_skip, param_update_properties, param_merge,
          param_clone, param_create_from_value, accessible_copy, param_own_properties, param_finish_revalidates,
          param_setproperty_routes, hasproperties_fresh_values, property_set_on_instance, module_init_copies,
@@ -361,7 +453,8 @@ FACTS = [walk_is_reversed_mro, second_loop_merges_in_place, wrapped_classes_skip
          command_call_marks_optional, command_own_properties, mixins_no_mutable_class_attribute,
          register_input_creates_instance_dict_first, properties_collected_along_reversed_mro,
          bare_value_override_copies_property_unconditionally, hasproperties_init_presets_values,
-         module_init_configures_properties_on_instance]
+         module_init_configures_properties_on_instance, arrayof_getproperties_builds_new_dict,
+         add_accessible_only_reads_cfg, get_module_instance_copies_options]
 
 FINGERPRINTS = {
     'HasAccessibles.__init_subclass__': _initsub,
